@@ -15,7 +15,33 @@ PROCESS_SOURCES = ('hash', 'id', 'getpid', 'random', 'time', 'urandom', 'uuid4',
 
 
 class KModel(PlainModel):
-    pass
+    """keymap methods: private helper methods reached through self (and plain helper functions of the module) are inlined"""
+
+    def __init__(self, module, cls=None):
+        PlainModel.__init__(self, module)
+        self.cls = cls
+
+    def resolve_method(self, name):
+        seen = set()
+        todo = [self.cls] if self.cls is not None else []
+        while todo:
+            ci = todo.pop(0)
+            if ci is None or ci.qual in seen:
+                continue
+            seen.add(ci.qual)
+            if name in ci.methods:
+                return ci.methods[name]
+            for b in ci.base_names():
+                todo.extend(self.module.classes_by_name.get(b, []))
+        return None
+
+    def call(self, f, args, kws, st, node):
+        if f[0] == 'attr' and f[1] == SELF and self.engine is not None:
+            fi = self.resolve_method(f[2])
+            # the public dispatch targets stay symbolic (K-DISPATCH reads them); private helpers are expanded
+            if fi is not None and f[2] not in ('encode', 'encrypt', 'decode', 'decrypt', '__call__', 'dumps', 'loads'):
+                return self.engine.inline(fi.node, '%s.%s' % (fi.cls.name, f[2]), {}, args, kws, st, node, self_val=SELF)
+        return PlainModel.call(self, f, args, kws, st, node)
 
 
 def is_sorter(f):
@@ -81,7 +107,7 @@ def keymap_classes(repo):
 
 
 def run_method(module, fi, unroll=2):
-    eng = Engine(KModel(module), unroll=unroll)
+    eng = Engine(KModel(module, fi.cls), unroll=unroll)
     a = fi.node.args
     params = {a.args[0].arg: SELF} if a.args else {}
     outs = eng.run_function(fi.node, {}, params=params)
@@ -227,6 +253,16 @@ def sorted_items_of(kw):
     return pred
 
 
+def fuse(t):
+    """iterating a generator / list comprehension yields its element expression: each(comp(k, X)) -> X"""
+    if not isinstance(t, tuple):
+        return t
+    t2 = tuple(fuse(x) for x in t)
+    if t2 and t2[0] == 'iter' and len(t2) >= 2 and isinstance(t2[1], tuple) and t2[1] and t2[1][0] == 'comp' and t2[1][1] in ('gen', 'list'):
+        return t2[1][2]
+    return t2
+
+
 def rule_K_INFO_TYPED_SENT(ctx, repo):
     m, classes = keymap_classes(repo)
     base = classes['keymap']
@@ -238,7 +274,7 @@ def rule_K_INFO_TYPED_SENT(ctx, repo):
         for o in outs:
             if o.kind != RETURN:
                 continue
-            v = o.val
+            v = fuse(o.val)
             if truth_of(o, lambda t: t == ('attr', SELF, 'outer')):
                 # chained keymap: inner(key); the key is the argument
                 if v[0] == 'call' and v[2]:
@@ -477,15 +513,18 @@ def rule_K_FAST(ctx, repo):
     init = classes['keymap'].methods.get('__init__')
     names = set()
     found = False
+    def collect(expr, depth=0):
+        callees = set(id(c.func) for c in ast.walk(expr) if isinstance(c, ast.Call))
+        for u in ast.walk(expr):
+            if isinstance(u, ast.Name) and isinstance(u.ctx, ast.Load) and id(u) not in callees:
+                if u.id in m.consts and depth < 3:
+                    collect(m.consts[u.id], depth + 1)     # a module-level constant holding the type list
+                else:
+                    names.add(u.id)
     for n in ast.walk(init.node):
         if isinstance(n, ast.Assign) and len(n.targets) == 1 and isinstance(n.targets[0], ast.Attribute) and n.targets[0].attr == '_fasttypes':
-            if not isinstance(n.value, (ast.Tuple, ast.List, ast.Set)):
-                continue
             found = True
-            for t in n.value.elts:
-                for u in ast.walk(t):
-                    if isinstance(u, ast.Name) and isinstance(u.ctx, ast.Load):
-                        names.add(u.id)
+            collect(n.value)
     if not found:
         raise AnalysisError('anchor vanished: keymap._fasttypes')
     bad = sorted(names & set(['tuple', 'list', 'dict', 'set', 'object', 'Sequence', 'Iterable', 'namedtuple']))
